@@ -113,7 +113,7 @@ def run_case(ctx, case):
         return res.done()
     # generated programs
     from vfw import build
-    d = os.path.join(build.BUILD, "macrotest-" + case["kind"])
+    d = build.bdir("macrotest-" + case["kind"])
     os.makedirs(os.path.join(d, "src"), exist_ok=True)
     open(os.path.join(d, "Cargo.toml"), "w").write('[package]\nname = "macrotest"\nversion = "0.1.0"\nedition = "2021"\n\n[dependencies]\nfpdec = { path = "%s" }\n\n[workspace]\n' % build.REPO)
     import shutil
@@ -124,7 +124,7 @@ def run_case(ctx, case):
             body += '    {{ let m: Decimal = Dec!({lit}); let r = Decimal::from_str("{lit}"); match r {{ Ok(d) => println!("{{}} {{}}", "{lit}", (d.coefficient() == m.coefficient() && d.n_frac_digits() == m.n_frac_digits())), Err(_) => println!("{{}} from_str-err", "{lit}") }} }}\n'.format(lit=lit)
         body += "}\n"
         open(os.path.join(d, "src", "main.rs"), "w").write(body)
-        p = subprocess.run(["cargo", "run", "--offline", "--target-dir", os.path.join(build.BUILD, "macrotest-target-ok")], cwd=d, env=build.ENV, stdout=subprocess.PIPE, stderr=subprocess.PIPE)
+        p = subprocess.run(["cargo", "run", "--offline", "--target-dir", build.bdir("macrotest-target-ok")], cwd=d, env=build.ENV, stdout=subprocess.PIPE, stderr=subprocess.PIPE)
         out = p.stdout.decode()
         for lit in LITS_OK:
             res.d["vcs"] += 1
@@ -138,7 +138,7 @@ def run_case(ctx, case):
     lits = LITS_ERR if ctx.tier == "thorough" else LITS_ERR[:3]
     for lit in lits:
         open(os.path.join(d, "src", "main.rs"), "w").write("use fpdec::{Dec, Decimal};\nfn main() { let m: Decimal = Dec!(%s); println!(\"{}\", m.coefficient()); }\n" % lit)
-        p = subprocess.run(["cargo", "build", "--offline", "--target-dir", os.path.join(build.BUILD, "macrotest-target-err")], cwd=d, env=build.ENV, stdout=subprocess.PIPE, stderr=subprocess.PIPE)
+        p = subprocess.run(["cargo", "build", "--offline", "--target-dir", build.bdir("macrotest-target-err")], cwd=d, env=build.ENV, stdout=subprocess.PIPE, stderr=subprocess.PIPE)
         res.d["vcs"] += 1
         res.d["distinct"].append("gen_err|" + lit)
         if p.returncode != 0 and b"proc macro panicked" in p.stderr + p.stdout:
@@ -169,13 +169,13 @@ def replay(ctx, native, v):
         return {"reproduced": False, "line": lit, "observed": "replay budget of 8 generated programs used up", "expected": ""}
     from vfw import build
     import subprocess, shutil
-    d = os.path.join(build.BUILD, "macrotest-replay")
+    d = build.bdir("macrotest-replay")
     os.makedirs(os.path.join(d, "src"), exist_ok=True)
     open(os.path.join(d, "Cargo.toml"), "w").write('[package]\nname = "macrotest"\nversion = "0.1.0"\nedition = "2021"\n\n[dependencies]\nfpdec = { path = "%s" }\n\n[workspace]\n' % build.REPO)
     shutil.copy(os.path.join(build.REPO, "Cargo.lock"), os.path.join(d, "Cargo.lock"))
     open(os.path.join(d, "src", "main.rs"), "w").write(
         "use fpdec::{Dec, Decimal};\nfn main() { let m: Decimal = Dec!(%s); println!(\"MACRO {} {}\", m.coefficient(), m.n_frac_digits()); }\n" % lit)
-    p = subprocess.run(["cargo", "run", "--offline", "--target-dir", os.path.join(build.BUILD, "macrotest-target-rp")], cwd=d, env=build.ENV,
+    p = subprocess.run(["cargo", "run", "--offline", "--target-dir", build.bdir("macrotest-target-rp")], cwd=d, env=build.ENV,
                        stdout=subprocess.PIPE, stderr=subprocess.PIPE)
     rt = parse_native(native["dev"].ask("5 from_str %s" % rt_text.encode().hex()))
     out = p.stdout.decode().strip()
